@@ -88,12 +88,16 @@ def mutants(argv):
     the repo and require the property's quick check to exit 1 there."""
     only = [a for a in argv if not a.startswith("-")]
     items = []
+    expect_pass = set()
     for p in sorted((VERIF / "mutants").glob("*.patch")):
         items.append((p.stem.split("-")[0], p.stem, p))
     for d in sorted((VERIF / "seeded").glob("*/")):
         meta = d / "meta.json"
         if meta.exists() and (d / "patch.diff").exists():
-            items.append((json.loads(meta.read_text())["property"], "seeded/" + d.name, d / "patch.diff"))
+            mj = json.loads(meta.read_text())
+            items.append((mj.get("check_with") or mj["property"], "seeded/" + d.name, d / "patch.diff"))
+            if mj.get("expect") == "pass":
+                expect_pass.add("seeded/" + d.name)
     res_file = VERIF / "mutants" / "last_result.json"
     try:
         results = json.loads(res_file.read_text())
@@ -126,6 +130,13 @@ def mutants(argv):
             p = subprocess.run([str(VERIF / "check"), prop, "--tier", "quick", "--no-evidence"], capture_output=True, text=True, env=env, cwd=str(VERIF), timeout=1500)
             dt = time.monotonic() - t0
             caught = p.returncode == 1 and "VIOLATION property=" in p.stdout
+            if name in expect_pass:
+                ok = p.returncode == 0
+                print(f"{name}: {'PASSES AS EXPECTED (neutralised change)' if ok else 'UNEXPECTED rc=%d' % p.returncode} in {dt:.0f}s")
+                results[name] = "passes as expected" if ok else f"unexpected rc={p.returncode}"
+                if not ok:
+                    rc = 1
+                continue
             vio = [ln for ln in p.stdout.splitlines() if ln.startswith("violation ")]
             print(f"{name}: {'CAUGHT' if caught else 'MISSED rc=%d' % p.returncode} in {dt:.0f}s {vio[0][:200] if vio else p.stdout[-300:]}")
             results[name] = "caught" if caught else f"missed rc={p.returncode}"
